@@ -18,7 +18,7 @@ CLAIMS: dict[str, tuple[str, str, str, str]] = {
         'presence kind as the row demands - whose arguments, expanded through local and self '
         'definitions and enclosing tests, read every fact a detecting check needs, attached to '
         'the element that owns the fact; the check family itself must route verdicts through '
-        'check_true -> add_error; counted loops must advance by a positive step.',
+        'check_true -> add_error; counted loops must advance by a positive step. An element\'s own checks are not switched off by state carried over a manifest refresh (R18.10).',
         'Not decided: absence of false positives on server output (needs the server values), '
         'sufficiency of each comparison, termination in general.',
         'DESIGN.md section 4, C18'),
@@ -46,7 +46,7 @@ CLAIMS: dict[str, tuple[str, str, str, str]] = {
         'and getvalue() except the guarded corruption hook; every path of generate_media_segment '
         'that inserts a box (emsg before moof, tfdt or PIFF into traf) reaches the reset of '
         'tfhd.base_data_offset / the forcing of trun.data_offset before encode (boolean flag '
-        'propagation over all paths); the edit API invalidates caches and propagates sizes.',
+        'propagation over all paths); the edit API invalidates caches and propagates sizes. Every path to encode (edited or not) resets the tfhd base read from the stored file and forces the trun data_offset field, because the fragment is re-based and trun.post_encode can add the field only by growing the encoded box (R03.7).',
         'Not decided: byte identity of mdat, the numerical value of an offset for a given file. '
         'Trusted: the layout idiom table of the extractor (classes it cannot model are reported '
         'by name and the analysed count has a floor).',
@@ -62,7 +62,7 @@ CLAIMS: dict[str, tuple[str, str, str, str]] = {
         'edit API must invalidate cached encodings and propagate size deltas, and encode() must '
         'back-patch sizes before the post-encode fix-ups; the box header reader/writer must agree; '
         'FieldReader.read() results must not be used as values. This is the reader/writer '
-        'agreement that byte-exact round-tripping needs, decided for all inputs.',
+        'agreement that byte-exact round-tripping needs, decided for all inputs. Mp4Atom._invalidate is decided per path: leaving the cache alone implies `_encoded is None`, clearing without recursing implies no parent.',
         'Not decided: equality of values (floats, dates), lazy vs eager field equality, the JSON '
         'round trip as a whole, bounded edit sequences. Guard linkages accepted: presence tests on '
         'the writer side (`x is not None`, `\'x\' in _fields`) against any reader-side condition.',
@@ -79,7 +79,7 @@ CLAIMS: dict[str, tuple[str, str, str, str]] = {
         'autoescaped files only on known producers; xs:duration / xs:dateTime / unsigned-int '
         'attributes must use their lexical formatter; attributes required for MPD@type must be '
         'emitted on every mode branch the manifest supports; URL templates may only use DASH '
-        'identifiers; URL text is escaped exactly once.',
+        'identifiers; URL text is escaped exactly once. The rules of C19 about the xs:dateTime / xs:duration formatters run here too (R05.8).',
         'Not decided: uniqueness of ids, non-empty AdaptationSets, non-negative durations '
         '(run-time values). Trusted: the Jinja2 parser; Flask\'s autoescape-by-extension rule '
         '(restated); the field table (free text vs numeric vs vocabulary vs file-derived), where '
@@ -113,7 +113,7 @@ CLAIMS: dict[str, tuple[str, str, str, str]] = {
         'separators equal. Option reads reachable from the media entry points must carry a media '
         'usage; the resolved start/depth must be stored before the URL parameters are computed; '
         'both parameter generators must apply usage mask, exclude and default removal, and each '
-        'parameter set must reach the matching AdaptationSet type.',
+        'parameter set must reach the matching AdaptationSet type. OptionsContainer.clone shares no group container with its source (R07.6).',
         'Not decided: identity of float formatting, values outside the enumerated type lattice, '
         'XML escaping of the query text (C05). Parser/formatter summaries recognise the idioms in '
         'use (constant-collection none tests, join/split, quote/unquote); an unrecognised formatter '
@@ -130,7 +130,7 @@ CLAIMS: dict[str, tuple[str, str, str, str]] = {
         'handlers parse options through the same restrictions/features; originalPublishTime is '
         'fromtimestamp(publish) and the manifest sets publish=int(publishTime.timestamp()) with a '
         'whole-second publishTime; every manifest advertising the patch feature also has '
-        'segmentTimeline, live mode and a patch template.',
+        'segmentTimeline, live mode and a patch template. availabilityStartTime stands still between a manifest and its patch (back-off confined to the start of the anchored unit).',
         'Not decided: that two manifests at T1 < T2 agree on shared segments, monotonic windows '
         '(histories/arithmetic).',
         'DESIGN.md section 4, C09'),
@@ -145,7 +145,7 @@ CLAIMS: dict[str, tuple[str, str, str, str]] = {
         'encode nothing themselves; each DRM system may hand out a moov/cenc/pro generator only '
         'under the membership test of the same-named DrmLocation (Marlin: none); cenc and moov '
         'share one generator; the fragment is the stored segment 0 loaded read-write and the key '
-        'set comes from the representation.',
+        'set comes from the representation. pssh key ids are identity conversions of the key set (R10.7); default locations replace a requested set only for None unless nothing can empty a request.',
         'Not decided: byte identity of untouched boxes (follows from C04 as far as reader/writer '
         'agreement goes), pssh payload contents. Patterns are matched on resolved names (the '
         'receiver of load_fragment, the loop variable of the DrmContext), not on line positions.',
@@ -164,7 +164,7 @@ CLAIMS: dict[str, tuple[str, str, str, str]] = {
         'RFC 4122 bytes_le permutation; generate_content_key interpreted over terms must return '
         'key[i] = A[i]^A[i+16]^B[i]^B[i+16]^C[i]^C[i+16] with A, B, C the digests of (T|K), (T|K|T), '
         '(T|K|T|K), T = seed[:30], K = little-endian key id (agreement of the construction with the '
-        'published key-seed algorithm, not of key bytes).',
+        'published key-seed algorithm, not of key bytes). Default locations replace a requested set only for None unless nothing can empty a request (pair rule).',
         'Not decided (cryptographic value equality, out of reach of static analysis): computed key '
         'bytes, AES checksum values, PRO parse-back.',
         'DESIGN.md section 4, C11'),
@@ -176,7 +176,7 @@ CLAIMS: dict[str, tuple[str, str, str, str]] = {
         'exists and the caller maps ValueError to 404; no implementation of '
         'calculate_media_segment_index returns an Optional parameter unchanged as the number the '
         'caller asserts; VOD/live period starts are the running sum of durations with unique ids '
-        'per repetition.',
+        'per repetition. The index / pass-counter slice of the live listing loop is evaluated for 1..6 stored periods.',
         'Not decided: tiling of the time-shift window in live mode, source-offset mapping, decode '
         'times (arithmetic).',
         'DESIGN.md section 4, C12'),
@@ -202,7 +202,7 @@ CLAIMS: dict[str, tuple[str, str, str, str]] = {
         'reduced or clamped expression of that width; the emsg time kwarg set per version is the '
         'field that version encodes and v0 is the delta from the segment start; the event loop '
         'step and every division by the interval sit behind a `interval <= 0` refusal; the '
-        'out-of-band listing enumerates ids 0..count-1 from start in steps of interval.',
+        'out-of-band listing enumerates ids 0..count-1 from start in steps of interval. The out-of-band listing is decided by evaluating the listing code over linear forms in start / interval for count 0..4.',
         'Not decided: exactly-once selection of events per segment (boundary arithmetic), CRC '
         'values. Many SCTE-35 codec asymmetries are genuine and recorded as known findings (the '
         'server only emits splice_insert + segmentation descriptor without components).',
@@ -219,7 +219,9 @@ CLAIMS: dict[str, tuple[str, str, str, str]] = {
         'verb method (the check commits the session), and CsrfProtection.check must refuse re-use, '
         'record the token, sign cookie key + service + salt exactly as the issuer does and raise on '
         'mismatch. A handler added or changed without the right decorator is a missing element of '
-        'the enumeration, for every request at once.',
+        'the enumeration, for every request at once. The whole submitted token is verified (no cut other '
+        'than the salt prefix unless it keeps more than a genuine token has) and the HMAC input sequences of '
+        'issue and check agree per strict-origin value (term evaluation).',
         'May-reach over resolved call edges (unresolved dynamic calls are not followed); role data '
         'and browser cookie behaviour are run-time and not decided; jwt_required() alone is treated '
         'as anonymous because the guest identity is handed to every visitor. Policy table and the '
@@ -237,7 +239,8 @@ CLAIMS: dict[str, tuple[str, str, str, str]] = {
         'bytes must sit under a handler; counted while-loops on request paths need a provably '
         'positive step; attributes read from library modules and annotated builtin containers must '
         'exist; int(x, base) on a known int is a definite TypeError; the synthetic-error selection '
-        'is by equality, counted only on the addressed branch, and no other literal 5xx exists.',
+        'is by equality, counted only on the addressed branch, and no other literal 5xx exists. Loops that '
+        'read until a sentinel end at end of input (R16.12).',
         'Decides explicit error signals, loop progress and definite crashes on resolved edges; not '
         'the absence of implicit Python exceptions (KeyError, AttributeError on None ...), not '
         'response-time bounds. Signals raised inside the MP4 parser are decided at the parser call '
@@ -255,7 +258,7 @@ CLAIMS: dict[str, tuple[str, str, str, str]] = {
         'cleared or re-targeted where its media file is deleted; the columns the property calls '
         'names must carry a uniqueness constraint; replace-on-upload must delete row and file '
         'together. Referential consistency is decided as far as it is a property of schema + '
-        'deletion sites.',
+        'deletion sites. Bulk DELETE statements only on models that own nothing and that nothing refers to (R17.8).',
         'Not decided: interleavings of concurrent requests, 200/4xx behaviour of listed streams '
         'after a history, byte-exact serving of uploads. Trusted: SQLAlchemy cascade semantics as '
         'documented; typed-receiver resolution of the call graph.',
@@ -268,7 +271,9 @@ CLAIMS: dict[str, tuple[str, str, str, str]] = {
         'a whole second; 0 <= timeShiftBufferDepth <= elapsedTime == now - availabilityStartTime; '
         'firstAvailableTime == elapsedTime - timeShiftBufferDepth >= 0; every symbolic start value '
         'is >= 60 s old; with a period p > 0 publishTime is availabilityStartTime + int(elapsed//p)*p; '
-        'no divisor can be zero; parser and branch table agree on the symbolic values.',
+        'no divisor can be zero; parser and branch table agree on the symbolic values. A symbolic start backs '
+        'off only at the start of the calendar unit it is anchored at; the C19 rules about the ISO date-time '
+        'parser of the explicit start run here too (R08.10).',
         'Axioms: wall clock >= 2020-01-01Z; explicit start <= now; depth/mup/leeway are int or None; '
         'segment_duration, timescale >= 1; calendar spans. Not decided: publishTime monotone in now, '
         'lag < p + 1 s, same instant within a UTC day (two-run / three-variable clauses). '
